@@ -1,5 +1,5 @@
 (** C04 — only a record's owner can change it or release its assets. *)
-From FM Require Import Auth.
+From FM Require Import Auth Reentrant.
 
 (** [op_initiator o] is the account that sends operation [o] (the transaction sender, or the
     user who asks an honest token contract to send).  [honest_op o] excludes only a direct call
@@ -59,6 +59,16 @@ Theorem C04_no_wallet_decrease : forall w o a,
   op_initiator o <> Some a -> a <> self_addr w -> nondecr w (fst (step w o)) a.
 Proof. exact step_others_nondecreasing. Qed.
 Print Assumptions C04_no_wallet_decrease.
+
+(** The same when a hostile token contract re-enters the marketplace during dispatch
+    (model/Reentry.v): a transaction with an arbitrary re-entry program debits nobody but the
+    accounts that initiate its operations — the transaction's sender and the hostile contract
+    itself. *)
+Theorem C04_no_wallet_decrease_with_reentry : forall w o prog a,
+  op_initiator o <> Some a -> Forall (fun n => op_initiator n <> Some a) prog -> a <> self_addr w ->
+  nondecr w (fst (rstep w o prog)) a.
+Proof. exact rstep_others_nondecreasing. Qed.
+Print Assumptions C04_no_wallet_decrease_with_reentry.
 
 Definition ask1 : gbal := mkG [(0, 5)] [] [].
 Definition l1 : listing := mkL 1 7 None None BeingPrepared None None (mkG [(0, 10)] [] []) ask1 None.
